@@ -1,7 +1,7 @@
 /* qmail-queue stand-in: records what it reads from fd 0 (message) and fd 1 (envelope) into the files named by
  * QQ_MSG / QQ_ENV (appending one record per invocation: 8 hex digits length, ':' , bytes, '\n').
  * Behaviour per invocation from the QQ_PLAN file (line k for the k-th invocation, counter in QQ_COUNT):
- *   ok | exit:<code> | die:<phase>:<n>:<how>   with phase m (message) / e (envelope): after reading n bytes of that stream,
+ *   ok | exit:<code> | ce:<how> | die:<phase>:<n>:<how>   with phase m (message) / e (envelope): after reading n bytes of that stream,
  *   b = before reading anything (30 ms after start, so that queue_init() has returned), a = after reading everything but before recording; how = exit code 0..255 or "sig" (SIGKILL). */
 #include <stdio.h>
 #include <stdlib.h>
@@ -56,10 +56,14 @@ int main(void)
 	}
 	if (!strncmp(planline, "exit:", 5)) exitcode = atoi(planline + 5);
 	if (!strncmp(planline, "die:", 4)) { phase = planline[4]; sscanf(planline + 5, ":%ld:%15s", &n, how); }
+	/* ce:<how>: close the envelope descriptor at once (the server's envelope write then fails with EPIPE for sure),
+	 * read the whole message, end with <how> */
+	if (!strncmp(planline, "ce:", 3)) { phase = 'c'; sscanf(planline + 3, "%15s", how); close(1); }
 	/* dying at once would race with the WNOHANG check in queue_init(); wait until the server has passed it */
 	if (phase == 'b') { usleep(30000); die(how); }
 	size_t ml, el;
 	char *m = slurp(0, &ml, phase == 'm' ? n : -1, how);
+	if (phase == 'c') die(how);
 	char *e = slurp(1, &el, phase == 'e' ? n : -1, how);
 	if (phase == 'a') die(how);
 	/* like qmail-queue: an envelope that is not F<sender>\0 (T<recipient>\0)* \0 is refused with exit code 91 */
